@@ -34,6 +34,11 @@
 //!                                                   it is read in d's next iteration
 //!   tx <d> <if> <v4> <m|ip:port> <hex>              packet sent in that iteration
 //!   ev <d> <chan> <event tokens>                    event received on a client channel during that iteration
+//!        started | found <ty> <inst> | removed <ty> <inst> | stopped <ty>
+//!        resolved <ty> <none|some sub> <fullname> <host> <port> <n> (<iphex> <k> (<ifname> <ifidx>)*)* <nprops> (<key> <valopt>)*
+//!        hstarted | hfound <host> <n> (<iphex> <k> (<ifname> <ifidx>)*)* | hremoved <host> <n> (…)* | htimeout <host> | hstopped <host>
+//!        announce <name> <intf> | namechange <orig> <new> <rrtype> <intf> | respond <intf> | ipadd <ip> | ipdel <ip> | error
+//!        unreg ok|notfound | status running|shutdown | metrics <n> (<key>=<value>)*
 //!   closed <d> <chan>                               the channel's sender side is gone
 //!   end <d> ok|panic                                the daemon thread ended
 use crate::sim::{Sim, SimIface};
@@ -59,13 +64,13 @@ fn scoped_ip_toks(ip: &ScopedIp) -> String {
         ScopedIp::V4(a) => {
             let mut ids: Vec<(String, u32)> = a.interface_ids().iter().map(|i| (i.name.clone(), i.index)).collect();
             ids.sort();
-            let mut s = format!("{} {}", a.addr(), ids.len());
+            let mut s = format!("{} {}", hex(&a.addr().octets()), ids.len());
             for (n, i) in ids {
                 s.push_str(&format!(" {} {}", hex(n.as_bytes()), i));
             }
             s
         }
-        ScopedIp::V6(a) => format!("{} 1 {} {}", a.addr(), hex(a.scope_id().name.as_bytes()), a.scope_id().index),
+        ScopedIp::V6(a) => format!("{} 1 {} {}", hex(&a.addr().octets()), hex(a.scope_id().name.as_bytes()), a.scope_id().index),
         _ => "?".to_string(),
     }
 }
